@@ -386,7 +386,7 @@ def p7(chk, repo, tier, only=None, rule="P7"):
                         n_und += 1
                         continue
                     # opaque value-numbering atoms are only meaningful within one run
-                    if any(sy.name.startswith("opq:") for sy in (P.free_symbols | Oe.free_symbols)) or any(f.func.__name__ in ("EINSUM", "CAT") for f in (P.atoms(sp.Function) | Oe.atoms(sp.Function))):
+                    if any(sy.name.startswith("opq:") for sy in (P.free_symbols | Oe.free_symbols)) or any(f.func.__name__ in ("EINSUM", "CAT", "SUB") or f.func.__name__.startswith("H_") for f in (P.atoms(sp.Function) | Oe.atoms(sp.Function))):
                         n_und += 1
                         continue
                     # the symbol of the wrt input (all loop passes)
